@@ -946,6 +946,10 @@ def shiftlon(lon_input, shift=None, wrap=True):
             (w,) = np.where(lon < 0.0)
             if w.size > 0:
                 lon[w] += 360.0
+                # a tiny negative number plus 360 rounds to 360
+                (w,) = np.where(lon >= 360.0)
+                if w.size > 0:
+                    lon[w] -= 360.0
 
     elif wrap:
         (w,) = where(lon > 180)
